@@ -403,7 +403,7 @@ func TestC16Wire(t *testing.T) {
 		}
 		defer world.CloseClient(c)
 		world.WriteEnergy(dir, full)
-		if !c.VerifStep("tick") {
+		if !world.Step(c, "tick") {
 			t.Fatalf("C16: reporting loop did not take the granted tick (panics: %+v)", client.VerifPanics())
 		}
 		if ps := client.VerifPanics(); len(ps) > 0 {
